@@ -16,14 +16,14 @@ from mc.ref import table as T
 
 PROPERTY = "C05"
 LEVEL = "exploration"
-RULE = ("cases = every table of 1..K rows (K=2 quick, 3 thorough) over 40 row kinds (good; surrounding blanks; embedded comma/semicolon/tab; "
+RULE = ("cases = every table of 1..K rows (K=2 quick, 3 thorough) over 41 row kinds (good; surrounding blanks; embedded comma/semicolon/tab; "
         "embedded newline; doubled quote; Unicode; Unicode line-separator characters inside a cell; short by one and by two cells; long; blank line; all-empty cells; bad date (out-of-range, 2-digit year, 3-digit month, underscore, sign, unpadded, other format); empty description; "
         "amount cells abc, empty, 0, 0.00, -0, nan, inf, -Infinity, (12.50), $1,234.50, 1.234,50, EUR 7, 1.234, 12,500, -45.10), each run under "
         "7 layouts (skip column, location, extra field mid/last, description template with capture last, '%d %b %y' dates) x 6 delimiters (comma, ';', "
         "tab, regex, regex with an optional last group, regex with named groups) x header/no header x decimal '.'/',' x sign {amount}/{-amount}/{+amount}/negate_amount override. non-trivial = table with "
         ">=1 row that must be skipped and >=1 that must be kept under some configuration; tables distinct by construction")
 ASSUMPTIONS = ["expected transactions are derived from the cell table by an independent Decimal-based reader following the property statement",
-               "not judged: location when no location column is mapped or the cell is empty; ambiguous numerals (1e3, 1_0, +5); dates followed by trailing text; "
+               "not judged: location when no location column is mapped or the cell is empty; ambiguous numerals (1e3, 1_0, +5); trailing text after a date under a format without blanks (the repository cuts such a cell at its first blank; the reference does the same); "
                "rows a delimiter kind cannot represent (newline or '|' under regex:, long rows under regex:)",
                "UTF-8 files, with or without a byte-order mark"]
 
@@ -42,6 +42,8 @@ KINDS = [
     # date cells that only a strict reading of the format rejects / accepts (strptime is the definition of "matches the format")
     K("d-yy", "01/16/25", "YY SHOP", "3.00"), K("d-pad3", "001/17/2025", "PAD SHOP", "3.10"), K("d-under", "1_1/18/2025", "UND SHOP", "3.20"),
     K("d-plus", "01/+2/2025", "PLUS SHOP", "3.30"), K("d-nopad", "1/5/2025", "NOPAD SHOP", "3.40"), K("d-iso", "2025-01-20", "ISO SHOP", "3.50"),
+    # a valid '%d %b %y' date followed by more text: it does not match that format (nor, cut at its first blank, any other layout's)
+    K("d-trail", "15 Jan 25 Wed", "TRAIL SHOP", "3.60"),
     K("a-abc", amt="abc"), K("a-empty", amt=""), K("a-0", amt="0"), K("a-0.00", amt="0.00"), K("a-neg0", amt="-0"),
     K("a-nan", amt="nan"), K("a-inf", amt="inf"), K("a-neginf", amt="-Infinity"), K("a-paren", amt="(12.50)"),
     K("a-lparen", amt="(12.50"), K("a-rparen", amt="12.50)"), K("a-usd", amt="$1,234.50"), K("a-eu", amt="1.234,50"), K("a-eur7", amt="€ 7"), K("a-1.234", amt="1.234"),
